@@ -369,3 +369,36 @@ def run(chk, F, CG):
     chk.analysed[rid] = {"source_sites": len(sites), "functions_with_unsafe_pointer_parameters":
                          {k: v for k, v in na.unsafe.items() if v}}
     return fs
+
+
+# ---------------------------------------------------------------------------------------------- R-ENUMIDX
+def run_enumidx(chk, F, rid="R-ENUMIDX"):
+    """A built-in array subscripted directly by a value of an enumeration type: the extent must exceed the largest
+    enumerator (an enum value is whatever the grammar's CALLs pass, and they pass enumerators)."""
+    import re
+    chk.rule(rid, "every fixed-extent array that is subscripted by an expression of enumeration type has more elements "
+                  "than the largest enumerator of that type")
+    n = 0
+    for fn in F.functions.values():
+        if not (fn.get("file") or "").endswith((".cpp", ".h", ".hpp", ".y", ".l")):
+            continue
+        for s in walk(fn.get("body")):
+            if s.get("k") != "sub":
+                continue
+            base, idx = s.get("base") or {}, s.get("idx") or {}
+            while idx.get("k") == "cast":
+                idx = idx["e"]
+            m = re.search(r"\[(\d+)\]$", base.get("t") or "")
+            et = (idx.get("t") or "").replace("const ", "")
+            if not m or not et or et not in F.enums:
+                continue
+            extent = int(m.group(1))
+            mx = max(v["v"] for v in F.enums[et]["values"])
+            big = [v["name"] for v in F.enums[et]["values"] if v["v"] >= extent]
+            n += 1
+            chk.ob(rid, "%s|%s[%s]" % (fn["q"].split("::")[-1], short(base), et.split("::")[-1]), not big,
+                   "%s subscripts `%s` (%d elements) with a %s, whose enumerator(s) %s have values up to %d: an "
+                   "out-of-bounds read" % (fn["q"], short(base), extent, et, big[:3], mx),
+                   "%s:%s" % (fn["file"], s.get("l")))
+    if n == 0:
+        chk.ob(rid, "none", True, "no array is subscripted by an enumeration value")
